@@ -16,7 +16,7 @@ ASSUMPTIONS = [
 
 
 def correspondence(ctx):
-    L = 5 if ctx.thorough else 4
+    L = 6 if ctx.thorough else 4
     jobs = []
     for n in range(1, L + 1):
         for p in B.all_patterns(n):
